@@ -27,6 +27,10 @@ def classify(st: dict[str, Any]) -> str:
     extra = [x for d in diffs for x in d["only_a"]]
     if not miss and not extra:
         return "order-within-file"
+    if all("Cannot determine type of" in x and x.rstrip().endswith("[has-type]") for x in miss + extra):
+        # whether `Cannot determine type` is reported depends on which import cycle (SCC) the module is processed in;
+        # the cached error list of a module that is itself fresh is replayed although its cycle was formed / broken
+        return "cycle-dependent-has-type"
     if st["cold"]["status"] == 2 and st["warm"]["status"] == 2 and miss and not extra:
         return "while-blocked:warm-omits-nonblocking-diagnostics"
     if miss and not extra:
@@ -157,7 +161,7 @@ def run(ctx: common.Ctx) -> None:
                                         "n_lines": len(st["warm"]["out"].splitlines())})
                         continue
                     key = classify(st)
-                    if key not in ("only_once-note-placement", "while-blocked:warm-omits-nonblocking-diagnostics"):
+                    if key not in ("only_once-note-placement", "while-blocked:warm-omits-nonblocking-diagnostics", "cycle-dependent-has-type"):
                         key = histgen.op_class(ops) + "|" + key
                     ctx.violation(key, f"warm run differs from cold run at step {st['i']} (ops {ops}, config {t['_cfg']})",
                                   {"task": t, "step": st["i"], "warm": st["warm"], "cold": st["cold"], "diffs": st.get("diffs"),
